@@ -6,6 +6,7 @@ CONSTANTS
   ExportOn = TRUE
   SampleMod = 200
   TimeoutOdds = 1
+  MByz = {}
   Ks = {3}
 INIT MInit
 NEXT MNext
